@@ -98,6 +98,9 @@ func ExtractToUnicode(c pdf.Cursor, obj pdf.Object, _ bool) (*ToUnicodeFile, err
 
 	res, err := readToUnicode(bytes.NewReader(body))
 	if err != nil {
+		if !pdf.IsMalformed(err) {
+			err = &pdf.MalformedFileError{Err: err}
+		}
 		return nil, err
 	}
 
